@@ -72,6 +72,17 @@ TEXT = {
             "(reference, inputs) space, and TLC validates every record against SpecDecode / SpecEncode; random large "
             "inputs (to 65535 bytes, long runs) round-trip; peak allocation is measured. Edge of the technique: the "
             "specification supplies oracle and exhaustive small space, long inputs are sampled.", "DESIGN.md section 3 C14"),
+    "C13": ("SyncTest.tla (sync layer + checksum history + compare-then-roll-back) is explored exhaustively by "
+            "MC_SyncTest with the monitor as invariant (deterministic games never flagged; a deviation on the k-th "
+            "simulation, k>=2, reported within check_distance+2 calls naming the first affected frame; request-list "
+            "contract); real SyncTestSessions over all (check distance, k) pairs and random configurations are judged by "
+            "the same monitor.  The deviation on the first simulation only is a known finding reproduced by the model.",
+            "DESIGN.md section 3 C13"),
+    "C16": ("Builder.tla is the reference validity predicate (documented rules as a state machine); TLC enumerates every "
+            "call sequence up to 3 (thorough 4) calls over small domains and each (configuration, next call) is replayed "
+            "on the real SessionBuilder, returned sessions are exercised under catch_unwind; run-time misuse calls carry "
+            "their documented result as expectation judged by the TLA+ monitor, Trace_Twin.tla shows the behaviour is "
+            "unchanged.", "DESIGN.md section 3 C16"),
 }
 
 NOTE = ("Trusted: TLC 1.8.0 + CommunityModules, the harness projection (world.rs) and virtual clock shim, the "
